@@ -149,9 +149,74 @@ def structural(acc, spec, source):
         acc.held(cls, key)
 
 
+def history_inplace(acc, spec, seed, j):
+    """Export, edit a constraint's expression tree in place (node attributes; also a feature renamed together with
+    its term nodes), export again with a fresh writer: the second export must equal the export of a fresh build."""
+    import copy
+    from flamapy.metamodels.fm_metamodel.transformations import ClaferWriter
+    if not spec.get("ctcs"):
+        return
+    r = rand.rng(seed, "c11inplace", j)
+    names = S.feature_names(spec)
+    m = S.build(spec)
+    try:
+        ClaferWriter(None, m).transform()
+    except Exception:  # noqa: BLE001
+        return
+    es = copy.deepcopy(spec)
+    if r.random() < 0.5:
+        i = r.randrange(len(spec["ctcs"]))
+        t3 = S.inplace_edit_ast(m.ctcs[i].ast, spec["ctcs"][i]["ast"], r, names, ("AND", "OR", "IMPLIES"))
+        if t3 is None:
+            return
+        es["ctcs"][i]["ast"] = t3
+        kind = "node"
+    else:
+        used = [n for n in names if any(n in S.ast_names(c["ast"]) for c in spec["ctcs"])]
+        if not used:
+            return
+        old, new = r.choice(used), "Renamed" + str(r.randint(100, 999))
+        if new in names:
+            return
+        m.get_feature_by_name(old).name = new
+        for c in m.ctcs:
+            st = [c.ast.root]
+            while st:
+                nd = st.pop()
+                if nd is None:
+                    continue
+                if nd.left is None and nd.right is None and nd.data == old:
+                    nd.data = new
+                st.extend([nd.left, nd.right])
+        for f in S.features(es["root"]):
+            if f["name"] == old:
+                f["name"] = new
+        es["ctcs"] = [{"name": c["name"], "ast": S.rename_ast(c["ast"], {old: new})} for c in es["ctcs"]]
+        kind = "rename"
+    cls = "history:in-place-ast-" + kind
+    key = S.digest(["c11-inplace", es])
+    acc.programs += 1
+    try:
+        got = ClaferWriter(None, m).transform()
+        want = ClaferWriter(None, S.build(es)).transform()
+    except Exception as e:  # noqa: BLE001
+        if judge(es)[0] is None:
+            acc.fail(cls, "no-exception", "clafer", [], f"raises:{type(e).__name__}", str(e)[:200], {"source": "history", "spec": es, "tags": []}, key)
+        return
+    acc.disagreements_checked += 1
+    if got != want:
+        acc.fail(cls, "same-configurations", "clafer", [], "stale-after-in-place-edit",
+                 f"export after in-place edit differs from the export of a fresh build: {S.first_diff(got.splitlines(), want.splitlines())}"[:300],
+                 {"source": "history", "spec": es, "tags": [], "before": spec}, key)
+    else:
+        acc.held(cls, key)
+
+
 def run_shard(desc, acc):
-    for source, spec, tags in cases(desc):
+    for j, (source, spec, tags) in enumerate(cases(desc)):
         run_case(acc, source, spec, tags)
+        if source == "random" or j % 40 == 0:
+            history_inplace(acc, spec, desc["seed"], j)
     i, n, seed = desc["shard"], desc["nshards"], desc["seed"]
     for j in range(desc.get("n_large", 0)):
         if j % n == i:
